@@ -69,7 +69,8 @@ Section Sel.
   Proof.
     induction prefs as [|m prefs IH]; simpl; [discriminate|].
     destruct (lookup m reg) as [e'|] eqn:L; [|discriminate].
-    destruct (satisfies_conditions T e' r) as [[|]| |] eqn:S; try discriminate.
+    destruct (satisfies_conditions T e' r) as [[|]| |] eqn:S; try discriminate;
+      [|destruct (report_raises T e' r); [discriminate|]].
     - intros H; inversion H; subst. exists [], prefs. split; [reflexivity|]. split; [exact L|].
       split; [now apply satisfies_true_honours|]. intros ? [].
     - intros H. destruct (IH H) as [pre [post [-> [L' [Hh Hpre]]]]].
@@ -83,23 +84,24 @@ Section Sel.
     induction prefs as [|m prefs IH]; simpl; [intros _ ? []|].
     destruct (lookup m reg) as [e'|] eqn:L; [|discriminate].
     destruct (satisfies_conditions T e' r) as [[|]| |] eqn:S; try discriminate.
+    destruct (report_raises T e' r); [discriminate|].
     intros H m' [<-|Hm]; [|auto].
     exists e'. split; [exact L|]. split; [exact S|]. now apply satisfies_false_not_honours.
   Qed.
 
   (* when nothing raises, the loop answers Found or NoSuitable, and Found as soon as some listed engine qualifies *)
   Lemma first_total reg prefs r :
-    (forall m, In m prefs -> exists e' b, lookup m reg = Some e' /\ satisfies_conditions T e' r = Ok b) ->
+    (forall m, In m prefs -> exists e' b, lookup m reg = Some e' /\ satisfies_conditions T e' r = Ok b /\ report_raises T e' r = false) ->
     (exists n e, first_satisfying T reg prefs r = Found n e)
     \/ (first_satisfying T reg prefs r = NoSuitable).
   Proof.
     induction prefs as [|m prefs IH]; simpl; intros H; [now right|].
-    destruct (H m (or_introl eq_refl)) as [e' [b [L S]]]. rewrite L, S.
-    destruct b; [left; eauto|]. apply IH. intros m' Hm'. apply H. now right.
+    destruct (H m (or_introl eq_refl)) as [e' [b [L [S R]]]]. rewrite L, S.
+    destruct b; [left; eauto|]. rewrite R. apply IH. intros m' Hm'. apply H. now right.
   Qed.
 
   Lemma first_complete reg prefs r :
-    (forall m, In m prefs -> exists e' b, lookup m reg = Some e' /\ satisfies_conditions T e' r = Ok b) ->
+    (forall m, In m prefs -> exists e' b, lookup m reg = Some e' /\ satisfies_conditions T e' r = Ok b /\ report_raises T e' r = false) ->
     (exists m e', In m prefs /\ lookup m reg = Some e' /\ honours e' r) ->
     exists n e, first_satisfying T reg prefs r = Found n e.
   Proof.
